@@ -153,6 +153,9 @@ func (im *Impl) Exec(line string) (out string) {
 		return "ok"
 	case "get":
 		v, err := im.st.Get(unhx(t[1]))
+		if err == storage.ErrExceedGasLimit {
+			return "err gas"
+		}
 		if err != nil {
 			return "err get"
 		}
